@@ -79,6 +79,9 @@ pub struct HalState {
     /// this on, the buffer's content is remembered at share and compared at unshare
     /// (fault `buffer-written-while-shared`).
     pub watch_writes: bool,
+    /// Added to every pointer `mmio_phys_to_virt` returns (a platform whose MMIO mappings do not
+    /// preserve the low bits of the physical address).
+    pub mmio_skew: usize,
     next_share_paddr: u64,
     /// If Some(k), the k-th (0-based) dma_alloc call of this execution fails.
     pub fail_dma_at: Option<usize>,
@@ -107,6 +110,7 @@ impl Default for HalState {
             next_dma_paddr: DMA_PADDR_BASE,
             straddle: None,
             watch_writes: false,
+            mmio_skew: 0,
             next_share_paddr: SHARE_PADDR_BASE,
             fail_dma_at: None,
             dma_calls: 0,
@@ -404,7 +408,7 @@ unsafe impl Hal for LabHal {
         HAL.with(|h| {
             let mut h = h.borrow_mut();
             let idx = h.mmio_maps.len();
-            let vaddr = MMIO_VADDR_BASE + idx * MMIO_VADDR_STRIDE + (paddr & 0xfff) as usize;
+            let vaddr = MMIO_VADDR_BASE + idx * MMIO_VADDR_STRIDE + (paddr & 0xfff) as usize + h.mmio_skew;
             h.mmio_maps.push((paddr, size, vaddr));
             h.log.push(HalEvent::MmioMap { paddr, size, vaddr });
             NonNull::new(vaddr as *mut u8).unwrap()
